@@ -83,7 +83,8 @@ def table(facts, parallel):
     add(RUN, "<SendDispatcher as RunNow>::run_now", timpl(facts, A.T_RUNNOW, A.SD, "run_now"), [("self", Src(SELF, []), {"dispatch"}, once)])
     add(RUN, "Dispatcher::dispatch", inh(facts, A.DISP, "dispatch"), [
         ("inner", Src(SELF, ["inner"]), {"dispatch"}, once),
-        ("self.thread_local", Src(SELF, []), {"dispatch_thread_local"}, once)])
+        # whether through dispatch_thread_local or in place: every thread-local system is run once
+        ("thread_local", Src(SELF, ["thread_local"]), {"run_now"}, once, ("dispatch_thread_local",))])
     add(RUN, "Dispatcher::dispatch_seq", inh(facts, A.DISP, "dispatch_seq"), [
         ("inner", Src(SELF, ["inner"]), {"dispatch_seq"}, once),
         ("thread_local", Src(SELF, ["thread_local"]), LIFECYCLE[RUN], never)])
@@ -163,9 +164,11 @@ def check_family(ctx, report, rule, facts, config, families, only=None):
             report.ob(rule, "%s/%s/ANCHOR" % (family, ident), False, "anchor not found: %s" % getattr(body, "msg", body), config=config)
             continue
         report.touched(body, config)
-        for label, src, names, expect in checks:
+        for chk in checks:
+            label, src, names, expect = chk[:4]
+            inline = chk[4] if len(chk) > 4 else ()
             fam = _family_pred(names, body)
-            cov = coverage(prog, body, src, fam)
+            cov = coverage(prog, body, src, fam, inline=inline)
             inst = "%s/%s/%s" % (family, ident, label)
             ok = cov.status == expect
             site = cov.sites[0] if cov.sites else body.loc()
@@ -177,7 +180,7 @@ def check_family(ctx, report, rule, facts, config, families, only=None):
                 for other, onames in sorted(LIFECYCLE.items()):
                     if other == family:
                         continue
-                    oc = coverage(prog, body, src, _family_pred(onames - names, body))
+                    oc = coverage(prog, body, src, _family_pred(onames - names, body), inline=inline, vacuous=False)
                     if oc.status != "never":
                         report.ob(rule, inst + "/no-" + other, False,
                                   "a %s-family method is invoked on %s inside a %s-family method: %s" % (other, label, family, oc.detail),
